@@ -62,6 +62,8 @@ func changeRequestToTarget(req *http.Request, httpsDefault bool) error {
 	}
 
 	targetUrl.Path = req.URL.Path
+	// Keep the client's own spelling of the path: without it an encoded "/" (%2F) would be sent on as a plain "/"
+	targetUrl.RawPath = req.URL.RawPath
 	targetUrl.RawQuery = req.URL.RawQuery
 	targetUrl.Fragment = req.URL.Fragment
 	req.URL = targetUrl
